@@ -132,6 +132,14 @@ func judgeC01(c *core.Case, cfg *core.Config) core.Verdict {
 			return v
 		}
 	}
+	if ref.Fail != nil && ref.Fail.Class == "budget" && opt && mode != "eval" {
+		// both fail on the budget, but the optimiser legitimately allocates less (a folded literal array inside a
+		// loop is no allocation any more): the optimised run may get further before it fails. What it logged up to
+		// the point where the reference stops must still be the same.
+		if len(ilog) > len(rlog) {
+			ilog = ilog[:len(rlog)]
+		}
+	}
 	if strings.Join(rlog, ";") != strings.Join(ilog, ";") {
 		v.Violation = fmt.Sprintf("call log differs: reference [%s], run [%s]", strings.Join(rlog, ";"), strings.Join(ilog, ";"))
 		return v
